@@ -33,6 +33,7 @@ func init() {
 	gens["c05-saddr-bytes"] = c05SaddrBytes
 	gens["c05-prefix"] = c05Prefix
 	gens["c05-amounts"] = c05Amounts
+	gens["c05-avc"] = c05AVC
 }
 
 // c05Long: LONG values - fixed-size buffers and limits inside the parser sit far above the
@@ -361,6 +362,33 @@ func c05Amounts(c *enumx.Ctx) {
 		parseBody(c, 1300, k.String())
 	}
 	c.Sample("Parse(1309, argc=100001 with a0..a100000 present)")
+}
+
+// c05AVC: the free-text head of AVC records ("avc:  denied  { read } for  pid=1 ..."): every sequence of <=5 of its
+// tokens (a head without braces, with empty braces, with two verdicts, without "for" ...) for the kernel's and the
+// user-space AVC types.
+func c05AVC(c *enumx.Ctx) {
+	toks := []string{"avc:", "denied", "granted", "{", "}", "read", "for", "pid=1", "{ read write }", "apparmor=\"DENIED\"", "seresult=denied"}
+	var rec func(cur []string)
+	rec = func(cur []string) {
+		if len(cur) > 0 && c.Mine() {
+			for _, sep := range []string{" ", "  "} {
+				b := strings.Join(cur, sep)
+				for _, t := range []uint16{1400, 1107, 1403} {
+					parseBody(c, t, "audit(1700000000.123:42): "+b)
+					parseBody(c, t, "audit(1700000000.123:42): pid=1 uid=0 msg='"+b+" exe=\"/x\"'")
+				}
+			}
+		}
+		if len(cur) == 5 {
+			return
+		}
+		for _, t := range toks {
+			rec(append(append([]string{}, cur...), t))
+		}
+	}
+	rec(nil)
+	c.Sample("Parse(1400, \"audit(...): avc:  denied  for  pid=1\")")
 }
 
 func c05TypeNames(c *enumx.Ctx) {
